@@ -398,10 +398,15 @@ func (v Verdict) quotedNear(x float64) float64 {
 	return best
 }
 
-// quotes: does the reason quote x, printed with at least minDec decimals, to within half a unit of the last printed place?
+// quotes: does the reason quote x?  A number printed with at least minDec decimals quotes x when it lies within half a unit of
+// its last printed place; one printed with fewer (trailing zeros dropped, "1063.72" for 1063.720) must BE x at minDec decimals.
 func (v Verdict) quotes(x float64, minDec int) bool {
 	for _, t := range v.nums {
-		if t.dec >= minDec && math.Abs(t.val-x) <= 0.5000001*math.Pow(10, -float64(t.dec))+1e-12*math.Abs(x) {
+		dec := t.dec
+		if dec < minDec {
+			dec = minDec
+		}
+		if math.Abs(t.val-x) <= 0.5000001*math.Pow(10, -float64(dec))+1e-12*math.Abs(x) {
 			return true
 		}
 	}
